@@ -68,12 +68,82 @@ theorem sigOf_setBody (G : Grammar) (i : Nat) (h : i < G.rules.length) (b' : Exp
   · rw [h1, h2]
   · rw [h1, h3]; subst h2; rfl
 
-theorem Inv_setBody {G : Grammar} (hinv : Inv sg G) (i : Nat) (h : i < G.rules.length) (b' : Expr)
-    (hb : AllN (NodeOK sg) b') : Inv sg (setBody G i h b') := by
-  refine ⟨fun n => by rw [sigOf_setBody, hinv.sig], fun r hr => ?_⟩
-  rcases List.mem_or_eq_of_mem_set hr with h1 | h1
-  · exact hinv.nodes r h1
-  · subst h1; exact hb
+theorem fused_setBody (G : Grammar) (i : Nat) (h : i < G.rules.length) (b' : Expr) :
+    (G.fusedSkip = none ∧ (setBody G i h b').fusedSkip = none) ∨
+    (∃ r, G.fusedSkip = some r ∧
+      ((setBody G i h b').fusedSkip = some r ∨
+       (r = G.rules[i] ∧ (setBody G i h b').fusedSkip = some { G.rules[i] with body := b' }))) := by
+  unfold Grammar.fusedSkip
+  rcases lookup_setBody G i h b' "SKIP" with ⟨h1, h2⟩ | ⟨r, h1, h2 | ⟨h2, h3⟩⟩
+  · rw [h1, h2]; exact Or.inl ⟨rfl, rfl⟩
+  · rw [h1, h2]; simp only []
+    by_cases hm : (r.mod == SILENT + ATOMIC) = true
+    · simp only [hm, ↓reduceIte]; exact Or.inr ⟨r, rfl, Or.inl rfl⟩
+    · simp only [hm, Bool.false_eq_true, ↓reduceIte]; exact Or.inl ⟨rfl, rfl⟩
+  · rw [h1, h3]; simp only []
+    subst h2
+    by_cases hm : (G.rules[i].mod == SILENT + ATOMIC) = true
+    · simp only [hm, ↓reduceIte]; exact Or.inr ⟨_, rfl, Or.inr ⟨rfl, rfl⟩⟩
+    · simp only [hm, Bool.false_eq_true, ↓reduceIte]; exact Or.inl ⟨rfl, rfl⟩
+
+theorem lookup_none_setBody (G : Grammar) (i : Nat) (h : i < G.rules.length) (b' : Expr) (name : String) :
+    (setBody G i h b').lookup name = none ↔ G.lookup name = none := by
+  rcases lookup_setBody G i h b' name with ⟨h1, h2⟩ | ⟨r, h1, h2 | ⟨h2, h3⟩⟩ <;> simp_all
+
+theorem Inv_setBody {G : Grammar} (hinv : Inv F sg G) (i : Nat) (h : i < G.rules.length) (b' : Expr)
+    (hb : AllN (NodeOK sg) b') (ht : totalBody G.rules[i].body = true → totalBody b' = true)
+    (hnp : F.skip = true → ∀ r ∈ (setBody G i h b').rules, AllN (NotPOK (setBody G i h b')) r.body) :
+    Inv F sg (setBody G i h b') := by
+  refine ⟨fun n => by rw [sigOf_setBody, hinv.sig], fun r hr => ?_, fun r hr hn => ?_, fun hf => ?_,
+    fun r hr => ?_, hnp⟩
+  · rcases List.mem_or_eq_of_mem_set hr with h1 | h1
+    · exact hinv.nodes r h1
+    · subst h1; exact hb
+  · rcases List.mem_or_eq_of_mem_set hr with h1 | h1
+    · exact hinv.skipMod r h1 hn
+    · subst h1; exact hinv.skipMod _ (List.getElem_mem h) hn
+  · rw [lookup_none_setBody, lookup_none_setBody]
+    apply hinv.fusedTrivia
+    rcases fused_setBody G i h b' with ⟨h1, h2⟩ | ⟨r, h1, _⟩
+    · exact absurd h2 hf
+    · rw [h1]; simp
+  · rcases fused_setBody G i h b' with ⟨h1, h2⟩ | ⟨r0, h1, h2 | ⟨h2, h3⟩⟩
+    · rw [h2] at hr; exact absurd hr (by simp)
+    · rw [h2] at hr; simp only [Option.some.injEq] at hr; subst hr; exact hinv.total _ h1
+    · rw [h3] at hr; simp only [Option.some.injEq] at hr; subst hr
+      subst h2
+      exact ht (hinv.total _ h1)
+
+/-- `_is_atomic`: the body of such a rule only ever runs with implicit trivia switched off -/
+theorem isAtomic_flag {G : Grammar} (hinv : Inv F sg G) (r : Rule) (hr : r ∈ G.rules)
+    (h : Opt.isAtomicRule G.rules r = true) :
+    (∀ b, ruleAtomic r.name r.mod b = true) ∨ NoTrivia G := by
+  unfold Opt.isAtomicRule at h
+  by_cases h0 : (!(G.rules.any (·.name == "WHITESPACE")) && !(G.rules.any (·.name == "COMMENT"))) = true
+  · right
+    simp only [Bool.and_eq_true, Bool.not_eq_true', List.any_eq_false, beq_iff_eq] at h0
+    have hw : G.lookup "WHITESPACE" = none := by
+      unfold Grammar.lookup
+      rw [List.find?_eq_none]
+      intro x hx; simpa using h0.1 x hx
+    have hc : G.lookup "COMMENT" = none := by
+      unfold Grammar.lookup
+      rw [List.find?_eq_none]
+      intro x hx; simpa using h0.2 x hx
+    refine ⟨?_, hw, hc⟩
+    cases hf : G.fusedSkip with
+    | none => rfl
+    | some x => exact absurd ⟨hw, hc⟩ (hinv.fusedTrivia (by rw [hf]; simp))
+  · left
+    simp only [h0, Bool.false_eq_true, ↓reduceIte, Bool.or_eq_true, beq_iff_eq] at h
+    intro b
+    unfold ruleAtomic
+    rcases h with (((h | h) | h) | h) | h
+    · simp [h]
+    · simp [h]
+    · simp [L1.isTriviaName, h]
+    · simp [L1.isTriviaName, h]
+    · simp [hinv.skipMod r hr h]
 
 /-! ### one pass over one body -/
 
@@ -96,6 +166,26 @@ theorem runOnce_out {g : Grammar} {rules : List Rule} {p : Opt.Pass} {e e' : Exp
             (Opt.size e + 64) e) = true
   · rw [if_pos hk] at h; exact absurd h (by simp)
   · rw [if_neg hk] at h; simp only [Option.some.injEq] at h; exact h.symm
+
+/-- one pass over one body gives a `TR`-related body.  The two matcher passes enter through
+    their builder lemmas `hsqB`, `hskB` (OptSoundSquash / OptSoundSkip). -/
+theorem runOnce_TR {g G : Grammar} {p : Opt.Pass} (hp : Allowed F p) (hinv : Inv F sg G)
+    (hsqB : F.squash = true → ∀ a e, AllN (NodeOK sg) e → TR F G a e (Opt.mapBottomUp (Opt.squashChoice g) e))
+    (hskB : F.skip = true → ∀ a k e, (a = true ∨ NoTrivia G) → AllN (NodeOK sg) e → AllN (NotPOK G) e →
+      TR F G a e (Opt.mapTopDown (Opt.skipPass G.rules 200) k e))
+    {a : Bool} (ha : p.atomicOnly = true → a = true ∨ NoTrivia G)
+    {e e' : Expr} (he : AllN (NodeOK sg) e) (hk : F.skip = true → AllN (NotPOK G) e)
+    (h : Opt.runOnce g G.rules p e = some e') : TR F G a e e' := by
+  have := runOnce_out h
+  subst this
+  obtain ⟨hmem, hsq, hsk⟩ := hp
+  simp only [Opt.defaultPasses, List.mem_cons, List.not_mem_nil, or_false] at hmem
+  rcases hmem with rfl | rfl | rfl | rfl | rfl
+  · exact unroll_TR a e he
+  · exact hskB (hsk rfl) a _ e (ha rfl) he (hk (hsk rfl))
+  · exact inlineBuiltin_TR a _ e he
+  · exact hsqB (hsq rfl) a e he
+  · exact inlineSilent_TR hinv a e he
 
 end OptS
 end Pest
